@@ -10,18 +10,25 @@ from core import Case
 import gen
 
 PID = "C05"
-LEAN_MODULES = ["MirProofs.Props.C05", "MirProofs.Props.C05_Transcription"]
+LEAN_MODULES = ["MirProofs.Props.C05", "MirProofs.Props.C05_Transcription", "MirProofs.Props.C05_HK"]
 RULE = ("bipartite graphs enumerated exhaustively (quick: all graphs up to 3x4 vertices, thorough: up to 4x5) "
         "and drawn at random up to 12x12 (thorough 40x40) incl. greedy-defeating gadgets; event sets on the "
         "1/32 s lattice with duplicates and pairs exactly at the window edge; a case is non-trivial when the "
-        "graph has at least one edge; distinct = distinct (edge list, returned pairs) protocol lines")
+        "graph has at least one edge; distinct = distinct (edge list, returned pairs) protocol lines; the "
+        "transliterated Hopcroft-Karp (hkMatch, proved valid and maximum for all dicts in C05_HK) is compared pair "
+        "for pair with util._bipartite_match on every adjacency dict up to 3x4 (thorough 4x5) in natural and in a "
+        "shuffled insertion order, and on random dicts up to 12x12 (thorough 40x40) with shuffled key order, "
+        "shuffled/repeated neighbours, empty lists and sparse vertex ids")
 ASSUMPTIONS = [
-    "the ∀-graphs theorem is about the certifying model maxMatchSize; util._bipartite_match (Hopcroft-Karp) is "
-    "not transliterated: each pairing it returns is run through the proved checker (valid ∧ size = maximum)",
+    "two ∀-graphs theorems: maxMatchSize_isMax about the certifying model, and C05_HK.hk_result_is_valid_matching / "
+    "hk_result_is_maximum about hkMatch, the dict-order-faithful transliteration of util._bipartite_match; that the "
+    "transliteration is the Python routine is checked, not proved (pair-for-pair equality of sorted(M.items()) on the "
+    "explored dicts, suites hk.* and transcription.bipartite_match); every pairing the real code returns is "
+    "additionally run through the proved checker (valid ∧ size = maximum)",
     "note/frequency matching criteria (transcription, multipitch) are compared at the level of the feasibility "
     "predicate evaluated in floating point by the code vs exact rationals in the model, on lattice inputs",
 ]
-UNPROVED = ["maximality of a transliteration of the Python Hopcroft-Karp for all graphs (its outputs are certified per instance)"]
+UNPROVED = []
 EXHAUSTIVE = {"quick": True, "thorough": True}
 
 
@@ -156,11 +163,93 @@ def suite_mod_distance(rng, tier, shard, nshards):
                    tag="mod %d" % m, info={"a": str(a), "b": str(b), "n": m})
 
 
+# ---------------------------------------------------------------------------------------------
+# the transliteration hkMatch (about which C05_HK proves validity and maximality for ALL dicts) against the real
+# util._bipartite_match, pair for pair, with the adjacency dict handed over in its insertion order
+
+def hk_case(adj_items, tag):
+    """adj_items: list of (u, [v...]) = the dict in insertion order (empty and repeated neighbour lists allowed)"""
+    adj = [[int(u), [int(v) for v in vs]] for u, vs in adj_items]
+
+    def call(adj=adj):
+        G = {}
+        for u, vs in adj:
+            G[u] = list(vs)
+        m = sorted(util._bipartite_match(G).items())
+        return [[[int(v), int(u)] for v, u in m], len(m)]
+    return Case("util._bipartite_match", [adj], call, tag=tag, info={"adj": adj},
+                nontrivial=any(vs for _, vs in adj))
+
+
+def all_dicts(nl, nr):
+    """every adjacency dict on nl x nr vertices in natural order, left vertices without edges kept (empty list)"""
+    for mask in range(1 << (nl * nr)):
+        yield mask, [(u, [v for v in range(nr) if (mask >> (u * nr + v)) & 1]) for u in range(nl)]
+
+
+def suite_hk_exhaustive(rng, tier, shard, nshards):
+    lim = (3, 4) if tier == "quick" else (4, 5)
+    k = 0
+    for nl in range(1, lim[0] + 1):
+        for nr in range(1, lim[1] + 1):
+            for mask, adj in all_dicts(nl, nr):
+                k += 1
+                if k % nshards != shard:
+                    continue
+                yield hk_case(adj, "hk exh %dx%d" % (nl, nr))
+                if tier == "quick" or nl * nr <= 12:
+                    # the same graph with another insertion order of the keys and of the neighbours
+                    sh = [(u, sorted(vs, key=lambda x: rng.random())) for u, vs in adj]
+                    rng.shuffle(sh)
+                    if rng.random() < 0.5:
+                        sh = [(u, vs) for u, vs in sh if vs] or sh
+                    yield hk_case(sh, "hk exh-shuffled %dx%d" % (nl, nr))
+
+
+def random_dict(rng, nmax):
+    """random_graph plus: sparse / permuted vertex ids, empty lists, repeated neighbours"""
+    items = random_graph(rng, nmax)
+    us = sorted({u for u, _ in items})
+    vs_all = sorted({v for _, vs in items for v in vs})
+    if rng.random() < 0.5:
+        ids = rng.sample(range(3 * nmax + 3), len(us))
+        mu = dict(zip(us, ids))
+        ids = rng.sample(range(3 * nmax + 3), len(vs_all))
+        mv = dict(zip(vs_all, ids))
+        items = [(mu[u], [mv[v] for v in vs]) for u, vs in items]
+    out = []
+    for u, vs in items:
+        vs = list(vs)
+        if vs and rng.random() < 0.15:
+            vs.insert(rng.randrange(len(vs) + 1), rng.choice(vs))      # a repeated neighbour
+        out.append((u, vs))
+    used = {u for u, _ in out}
+    for _ in range(rng.choice([0, 0, 1, 2])):
+        u = rng.randrange(3 * nmax + 3)
+        if u not in used:
+            used.add(u)
+            out.insert(rng.randrange(len(out) + 1), (u, []))           # a left vertex without neighbours
+    return out
+
+
+def suite_hk_shuffled(rng, tier, shard, nshards):
+    n, nmax = (600, 12) if tier == "quick" else (6000, 40)     # per shard
+    for _ in range(n):
+        items = random_dict(rng, nmax)
+        yield hk_case(items, "hk random")
+        if rng.random() < 0.5:
+            # the same graph, another insertion order: the size must agree (the pairs need not)
+            sh = [(u, sorted(vs, key=lambda x: rng.random())) for u, vs in items]
+            rng.shuffle(sh)
+            yield hk_case(sh, "hk random reshuffled")
+
+
 from suites import transcription as _TR, multipitch as _MP  # noqa: E402
 
 SUITES = {"exhaustive_graphs": suite_exhaustive, "random_graphs": suite_random,
           "match_events": suite_match_events, "fast_hit_windows": suite_fast_hit_windows,
           "mod_distance": suite_mod_distance,
+          "hk.exhaustive_dicts": suite_hk_exhaustive, "hk.shuffled_dicts": suite_hk_shuffled,
           # note matching: pairings returned by the real match_notes / match_note_onsets / match_note_offsets go through
           # the proved checker against the model's feasibility graph (onset / pitch / offset criteria, strict, offset_ratio)
           "transcription.match_notes": _TR.SUITES["transcription.match_notes"],
@@ -289,6 +378,24 @@ def gen_match_events_distance(rng, tier, shard, nshards, boost):
         yield {"ref": [str(x) for x in ref], "est": [str(x) for x in est], "window": str(rng.choice([Fr(1, 4), Fr(1, 2), Fr(1)]))}
 
 
+def _total(chk):
+    """the matching routines are total on the (valid) inputs the generators produce: an exception raised inside
+    mir_eval is a failure of the property on that input, not a harness error"""
+    import functools
+    import traceback as _tb
+
+    @functools.wraps(chk)
+    def wrapped(inp):
+        try:
+            return chk(inp)
+        except Exception as e:  # noqa: BLE001
+            frames = _tb.extract_tb(e.__traceback__)
+            if any("mir_eval" in (f.filename or "") for f in frames):
+                return "the matching routine raised %s: %s" % (type(e).__name__, e)
+            raise
+    return wrapped
+
+
 CHECKERS = {"util._bipartite_match": check_bipartite, "util.match_events": check_match_events,
             "util.match_events(distance)": check_match_events_distance}
 ORACLES = {"util._bipartite_match": gen_bipartite, "util.match_events": gen_match_events,
@@ -300,7 +407,7 @@ def classify(suite, d):
     if suite.startswith("transcription"):
         from props import t_transcription
         return t_transcription.classify(suite, d)
-    if suite in ("exhaustive_graphs", "random_graphs"):
+    if suite in ("exhaustive_graphs", "random_graphs") or suite.startswith("hk."):
         return "util._bipartite_match", {"adj": i["adj"]}
     if suite in ("match_events", "fast_hit_windows"):
         return "util.match_events", {"ref": i["ref"], "est": i["est"], "window": i["window"]}
@@ -310,3 +417,4 @@ from props import _relational  # noqa: E402
 _xc, _xo = _relational.extra(PID)
 CHECKERS.update(_xc)
 ORACLES.update(_xo)
+CHECKERS = {site: _total(chk) for site, chk in CHECKERS.items()}
